@@ -174,7 +174,15 @@ impl Project for FileBackedProject {
 
         // Do the analysis
         match analyze(&all_libraries) {
-            Ok(_) => Ok(()),
+            Ok(_) => {
+                // Analysis of the files that did parse succeeded, but that must not
+                // hide the files that did not parse.
+                if all_diagnostics.is_empty() {
+                    Ok(())
+                } else {
+                    Err(all_diagnostics)
+                }
+            }
             Err(diagnostics) => {
                 // If we had an error, then add more diagnostics to any that we already had
                 all_diagnostics.extend(diagnostics);
